@@ -1,0 +1,69 @@
+/*!
+ * verif.h - verification hooks for lcdb (compiled only with -DLCDB_VERIF)
+ *
+ * Declarations only. The runtime lives outside this repository and is
+ * linked by the verification harness. Without LCDB_VERIF every macro
+ * below expands to nothing.
+ */
+
+#ifndef LDB_VERIF_H
+#define LDB_VERIF_H
+
+#ifdef LCDB_VERIF
+
+#include <stddef.h>
+
+/* Emit one event: {"n":<order>,"t":<thread>,"e":"<name>",<fmt...>}. */
+void lcdb_verif_ev(const char *name, const char *fmt, ...);
+
+/* Incremental event construction (thread local). */
+void lcdb_verif_begin(const char *name);
+void lcdb_verif_add(const char *fmt, ...);
+void lcdb_verif_end(void);
+
+/* Pointer -> small stable id; newid forces a fresh id for the pointer. */
+int lcdb_verif_id(const void *ptr);
+int lcdb_verif_newid(const void *ptr);
+
+/* Seeded delay point. */
+void lcdb_verif_pt(int point);
+
+/* Lockset bookkeeping: op 1 = acquired, 0 = about to release. */
+void lcdb_verif_mtx(const void *mtx, int op);
+
+/* Pseudo-locks for ownership protocols (leader / background). */
+void lcdb_verif_own(const char *what, int op);
+
+/* Shared-object access with the calling thread's lockset. */
+void lcdb_verif_acc(const char *obj, const void *inst, int write);
+
+/* Preserve a finished table file (hard link keyed by number). */
+void lcdb_verif_keep(const char *dbname, unsigned long number);
+
+#define LCDB_EV(args) lcdb_verif_ev args
+#define LCDB_BEGIN(name) lcdb_verif_begin(name)
+#define LCDB_ADD(args) lcdb_verif_add args
+#define LCDB_END() lcdb_verif_end()
+#define LCDB_PT(n) lcdb_verif_pt(n)
+#define LCDB_MTX(m, op) lcdb_verif_mtx(m, op)
+#define LCDB_OWN(w, op) lcdb_verif_own(w, op)
+#define LCDB_ACC(o, i, w) lcdb_verif_acc(o, i, w)
+#define LCDB_KEEP(d, n) lcdb_verif_keep(d, n)
+#define LCDB_ID(p) lcdb_verif_id(p)
+#define LCDB_NEWID(p) lcdb_verif_newid(p)
+
+#else /* !LCDB_VERIF */
+
+#define LCDB_EV(args) ((void)0)
+#define LCDB_BEGIN(name) ((void)0)
+#define LCDB_ADD(args) ((void)0)
+#define LCDB_END() ((void)0)
+#define LCDB_PT(n) ((void)0)
+#define LCDB_MTX(m, op) ((void)0)
+#define LCDB_OWN(w, op) ((void)0)
+#define LCDB_ACC(o, i, w) ((void)0)
+#define LCDB_KEEP(d, n) ((void)0)
+
+#endif /* !LCDB_VERIF */
+
+#endif /* LDB_VERIF_H */
